@@ -224,6 +224,11 @@ def numeric(ctx):
             ctx.fail(cid, 'Quaternion.log', 'raises:' + type(r).__name__, dict(P, law='exp(log)'), 'exp(log(q)) raised %r' % (r,))
         elif not np.all(np.isfinite(r)) or np.abs(r - q).max() > 1e-6 * sc:
             ctx.fail(cid, 'Quaternion.log', 'mismatch', dict(P, law='exp(log)'), 'exp(log(q)) differs from q by %.3g (q=%s)' % (np.abs(r - q).max(), q.tolist()))
+        # the same object used again after exp() / log(): its value must still be q and the answers the same
+        qo = Q(q.copy())
+        ok, r = call(lambda: (qo.log().vec, qo.exp().vec, qo.vec.copy(), qo.log().vec, qo.exp().vec))
+        if ok and (not np.array_equal(r[2], q) or not np.array_equal(r[0], r[3]) or not np.array_equal(r[1], r[4])):
+            ctx.fail(cid, 'Quaternion.exp', 'mismatch', dict(P, law='reuse'), 'q.log() / q.exp() evaluated twice on one object differ, or q changed (q=%s -> %s)' % (q.tolist(), r[2].tolist()))
         if 0 < vm < math.pi and abs(sp) <= 3:
             ok, r = call(lambda: Q(q.copy()).exp().log().vec)
             if not ok:
